@@ -28,6 +28,9 @@ rule("C19.g", "time zone case analysis of interval data, asset windows and grids
 rule("C15.g", "time zone case analysis of the fix-window date: " + ZONE_CASE, floor=1)
 rule("C20.h", "time zone case analysis of order start / end: " + ZONE_CASE, floor=2)
 rule("C11.i", "time zone case analysis of dates read back from JSON: " + ZONE_CASE, floor=1)
+rule("C19.i", "the boundaries of the coarse intervals of a sub-grid span its whole window: the date range is opened with the window start "
+              "and closed with the window end when it does not reach them (anchored frequencies, a window that is not a multiple of "
+              "the coarse step) - no fine step is lost", floor=1, props=["C19", "C13"])
 NO_STRIP = "a date that reaches the zone case analysis has not passed a conversion that silently drops its zone (.values on a frame " \
            "column, a datetime64 cast, tz_localize(None)) - neither in the function nor where the constructor stored it"
 rule("C19.h", "interval data and asset windows: " + NO_STRIP, floor=2)
@@ -189,7 +192,7 @@ def _zone_cases(ctx):
     return counts
 
 
-@analysis("intervals", ["C19.a", "C19.b", "C19.c", "C19.e", "C19.g", "C15.g", "C20.h", "C11.i", "C19.h", "C20.i", "C15.h"])
+@analysis("intervals", ["C19.a", "C19.b", "C19.c", "C19.e", "C19.g", "C15.g", "C20.h", "C11.i", "C19.h", "C20.i", "C15.h", "C19.i"])
 def run(ctx):
     p = ctx.p
     zc = _zone_cases(ctx)
@@ -381,4 +384,30 @@ def run(ctx):
             ctx.ob("C19.c", init, "coarse intervals: %s" % au.short(it, 60), ok,
                    "coarse intervals must be consecutive pairs (x[0:-1], x[1:]) of one date range so that they partition the fine steps "
                    "without gap or overlap", node=lp)
+            # ---- C19.i: the sequence spans [start, end)
+            seq = a.value
+            seq_name = seq.id if isinstance(seq, ast.Name) else None
+            opened = closed = False
+            if seq_name:
+                for s2 in au.walk_stmts(init.body):
+                    if s2.lineno >= lp.lineno:
+                        continue
+                    for x in au.walk_own(s2):
+                        if isinstance(x, ast.Call) and isinstance(x.func, ast.Attribute) and au.base_name(x.func) == seq_name:
+                            txt = au.U(x)
+                            if x.func.attr == "insert" and x.args and au.const_num(x.args[0]) == 0 and "start" in txt:
+                                opened = True
+                            if x.func.attr in ("append", "union") and "end" in txt:
+                                closed = True
+                            if x.func.attr == "insert" and x.args and au.const_num(x.args[0]) != 0 and len(x.args) > 1 and "end" in au.U(x.args[1]):
+                                closed = True
+                        if isinstance(x, ast.Call) and au.method_name(x) in ("union", "append", "DatetimeIndex", "concat") and seq_name in au.names_in(x) \
+                                and "start" in au.U(x) and "end" in au.U(x):
+                            opened = closed = True
+            ctx.ob("C19.i", init, "coarse boundaries span the window", opened and closed,
+                   "the coarse intervals are consecutive pairs of %s = date_range(start, end, freq) only; the range stops at the last multiple "
+                   "of the coarse step before the end (and, for anchored frequencies such as 'W', starts at the first anchor after the "
+                   "start): fine steps before the first / after the last boundary belong to no coarse interval, the asset is silently "
+                   "inactive there (hourly grid of 84 h with a daily asset: 72 steps covered; two weeks with 'W': one of two)" % (seq_name or au.U(seq)),
+                   node=lp, ok_detail="opened with the window start and closed with the window end")
     ctx.require(n_c >= 8, "fewer than 8 sub-grid attribute assignments found in Timegrid.__init__")
